@@ -133,6 +133,9 @@ def finish(ctx):
     for n in vac_bad:
         print("UNDECIDED property=%s obligation=%s reason=vacuity probe did not fire (precondition contradictory or harness unreachable)" % (pid, n))
 
+    kf_names = set(o.name for _kf, obs in known_hit.values() for o in obs)
+    # obligations failing because of a listed known finding are reported on their own and are not part of the proof count
+    proof_obs = [o for o in proof_obs if o.name not in kf_names]
     n_ob = len(proof_obs)
     n_dis = sum(1 for o in proof_obs if o.status == DISCHARGED)
     # obligations failing only because of a listed known finding are reported, and counted as not discharged
@@ -159,7 +162,7 @@ def finish(ctx):
         "obligations_by_backend": by_backend,
         "solver_time_s": round(sum(o.time_s for o in ctx.obligations), 3),
         "failed": [o.name for o in failed],
-        "known_findings_matched": [kf["what"] for kf, _ in known_hit.values()],
+        "known_findings_matched": [{"finding": kf["what"], "failing_obligations": [o.name for o in obs]} for kf, obs in known_hit.values()],
         "undecided": [o.name for o in und] + [n for n, _ in ctx.undecided_reasons],
         "vacuity_probes": {"run": len(ctx.vacuity), "ok": sum(1 for _, ok in ctx.vacuity if ok)},
         "supporting_static_facts": ctx.static_facts,
